@@ -539,7 +539,7 @@ static void check_pattern14(const Spec& ps, const std::vector<Input>& inputs) {
 // 11 literal + '*', 12 component-specific, 13 escaped literal, 14 upper-case literal, 15.. extras
 static const std::vector<std::vector<const char*>>& pattern_menu() {
   static const std::vector<std::vector<const char*>> m = {
-      /*protocol*/ {nullptr, "", "*", "https", ":id", ":id?", "(.*)", "(https|ftp)", "http{s}?", "{http}*s", ":x(\\w+)", "h*", "data", "htt\\ps", "HTTPS", "{https}"},
+      /*protocol*/ {nullptr, "", "*", "https", ":id", ":id?", "(.*)", "(https|ftp)", "http{s}?", "{http}*s", ":x(\\w+)", "h*", "data", "htt\\ps", "HTTPS", "{https}", "ws", "wss", "ftp", "file", "http"},  // every special scheme as a literal
       /*username*/ {nullptr, "", "*", "user", ":id", ":id?", "(.*)", "(a|b)", "{a}?", "{a}*", ":x(\\d+)", "a*", "u r", "us\\er", "USER", "us:x"},
       /*password*/ {nullptr, "", "*", "pass", ":id", ":id?", "(.*)", "(a|b)", "{a}?", "{a}*", ":x(\\d+)", "a*", "u r", "pa\\ss", "PASS", ":x-:y"},
       /*hostname*/ {nullptr, "", "*", "example.com", ":id", ":id?", "(.*)", "(a|b).com", "{sub.}?example.com", "{a.}*com", ":x(\\d+)", "a*", ":sub.example.com", "example\\.com", "EXAMPLE.COM", "*.example.com", "[\\:\\:1]", EACUTE ".com"},
@@ -594,7 +594,7 @@ static std::vector<Input> inputs14() {
                         "https://[::1]/a", "https://[::1]:8080/", "https://[0:0::1]/", "https://example.com/%61/b", "https://example.com/a%2Fb", "https://example.com/a/../b",
                         "https://example.com/a.b", "https://example.com/" EACUTE, "https://" EACUTE ".com/", "https://xn--9ca.com/", "https://sub.example.com/a",
                         "https://x.sub.example.com/", "https://a.com/", "https://b.com/", "https://a.a.com/", "https://com/", "https://123/", "https://aaa/", "https://a/",
-                        "data:text/plain,hi", "data:a", "data:/a/b", "data:", "ftp://example.com/a", "ftp://example.com:21/", "file:///a/b", "h://x/a", "https://example.com/123",
+                        "data:text/plain,hi", "data:a", "data:/a/b", "data:", "ftp://example.com/a", "ftp://example.com:21/", "file:///a/b", "h://x/a", "ws://example.com/a/b", "ws://example.com/a/b/c", "wss://example.com/a", "ws://example.com?q=1", "http://example.com/a/b/c", "https://example.com/123",
                         "https://example.com/a", "https://example.com/b", "https://example.com/a/", "https://example.com/a/a/a", "https://example.com/a/b/c", "https://example.com/x/y/z",
                         "https://example.com/A/B", "https://example.com//a", "https://example.com/a b", "https://example.com/aaa", "https://example.com/a/x.html", "https://example.com/x/",
                         "https://example.com/?q=1", "https://example.com/?q=12", "https://example.com/?a", "https://example.com/?b", "https://example.com/?Q=1", "https://example.com/?aaa",
